@@ -367,7 +367,8 @@ def eval_expr(n, env):
             if pt.data == "cmp" and str(pt.children[1]) in ("=", "==") and isinstance(pt.children[2], lark.Tree) and pt.children[2].data == "qmark":
                 col = eval_expr(pt.children[0], env)
                 nxt = env.next_arg()
-                if not (isinstance(nxt, Splice) and nxt.seq.length is a.seq.length):
+                same_len = isinstance(nxt, Splice) and (nxt.seq.length is a.seq.length or z3.eq(nxt.seq.length, a.seq.length) or _must_equal(nxt.seq.length, a.seq.length))
+                if not same_len:
                     raise SQLArgs("placeholder list and argument list out of lock-step")
                 tv = member_seq(col, nxt.seq)
                 # an empty sequence renders "( )": a syntax error in sqlite
@@ -441,8 +442,20 @@ def in_hole(a, h, env):
     raise Undecided("IN (%r)" % (h,))
 
 
-class Splice(object):
-    """Marks a run of len(seq) positional arguments taken from an abstract sequence."""
+def _must_equal(x, y):
+    """the two lengths are equal on every state of the current path (asked of the path's solver)"""
+    from .core import Ctx
+    c = Ctx.current
+    try:
+        return c is not None and c.must(x == y)
+    except Exception:
+        return False
+
+
+class Splice(Sym):
+    """Marks a run of len(seq) elements taken from an abstract sequence inside a concrete list
+    (list.extend(<abstract sequence>)).  Consumed by the SQL argument matcher, by set(), len() and `in`;
+    any other use of such a list (iteration, indexing, sorting) is undecided."""
 
     def __init__(self, seq):
         self.seq = seq
